@@ -170,6 +170,9 @@ class CTypes:
             if name in ('Range', 'RangeTo', 'RangeFrom', 'RangeFull', 'RangeInclusive'): return name.lower() + '_t'
             if name in ('Option', 'Bound'):
                 return s.define(name.lower() + '_' + mangle(t[2][0]), lambda: 'struct { long disc; %s v; }' % s.of(t[2][0]))
+            if name == 'Result':
+                # Result<(), E>: disc 0 = Ok(()), 1 = Err(v)
+                return s.define('result_' + mangle(t[2][0]) + '_' + mangle(t[2][1]), lambda: 'struct { long disc; %s v; }' % s.of(t[2][1]))
             if name == 'ControlFlow':
                 return s.define('cflow_' + mangle(t[2][1]), lambda: 'struct { long disc; %s v; }' % s.of(t[2][1]))
             if name == 'Ordering': return 'ordering_t'
@@ -445,6 +448,10 @@ class Translator:
         if m: return '(%s){ 1, %s }' % (s.ct.of(lty), s.operand(f, m.group(2))[0])
         m = re.match(r'^Option::<(.*)>::None$', r)
         if m: return '(%s){ 0 }' % s.ct.of(lty)
+        m = re.match(r'^Result::<(.*)>::Ok\((.*)\)$', r)
+        if m: return '(%s){ 0 }' % s.ct.of(lty)
+        m = re.match(r'^Result::<(.*)>::Err\((.*)\)$', r)
+        if m: return '(%s){ 1, %s }' % (s.ct.of(lty), s.operand(f, m.group(2))[0])
         m = re.match(r'^(.*?)\s*\{ (.*) \}$', r)               # struct / closure aggregate with named fields
         if m and lty and lty[0] in ('adt', 'closure'):
             fields = [x.split(': ', 1) for x in split_top(m.group(2))]
@@ -807,7 +814,7 @@ if __name__ == '__main__':
     if sys.argv[4:] == ['--list']:
         for k in sorted(tr.fns): print(k, len(tr.fns[k]))
         sys.exit(0)
-    for t in ('&mut [T]', 'Option<T>', 'Option<&T>', 'Option<&mut [T]>', 'Option<usize>', 'Bound<&usize>', '(usize, bool)', '(&mut [T], &mut [T])', 'Iter<T>'):
+    for t in ('&mut [T]', 'Option<T>', 'Option<&T>', 'Option<&mut [T]>', 'Option<usize>', 'Result<(), T>', 'Bound<&usize>', '(usize, bool)', '(&mut [T], &mut [T])', 'Iter<T>'):
         tr.ct.of(parse_type(t))
     roots = list(sys.argv[4:]) + ['Iterator for Iter::next']
     bodies = tr.run(roots)
